@@ -3,9 +3,27 @@
 World index layout (see semantics.evaluate): the k-th used choice has arity len(probs)+1 (last value = 'none')
 and stride = product of the arities of the earlier used choices; world index = sum(value_k * stride_k).
 No import of problog."""
+import contextlib
+import os
+import tempfile
 from fractions import Fraction
 
 from pbt.ref import semantics as sem
+
+
+@contextlib.contextmanager
+def scratch_cwd():
+    """maxsatz appends a line to a file 'resulttable' in the current directory on every call: run it from the
+    per-run temp directory so that the checkout stays clean."""
+    old = os.getcwd()
+    try:
+        os.chdir(tempfile.gettempdir())
+    except OSError:
+        pass
+    try:
+        yield
+    finally:
+        os.chdir(old)
 
 
 def iter_bits(mask):
